@@ -118,6 +118,11 @@ class Storage(Machine):
         # K3: one pair on two roles -> must be rejected
         r3 = s.sample(roles, 2)
         kconfigs["k_dup"] = [[r3[0], pairs[1]], [r3[1], pairs[1]]]
+        # the same collision with other assignments written in between (same vendor / other class, other vendor / same class)
+        r5 = s.sample(roles, 4)
+        kconfigs["k_dup_apart"] = [[r5[0], pairs[1]], [r5[1], [pairs[1][0], pairs[1][1] + "-other"]],
+                                   [r5[2], ["elsewhere.example", pairs[1][1]]], [r5[3], pairs[1]]]
+        s.shuffle(kconfigs["k_dup_apart"])
         # K4: collision with a default class name: the named pair moves
         soc0 = "nrf54h20"
         dcls, drole = s.choice(DEFAULT_CLASSES[soc0])
@@ -167,7 +172,7 @@ class Storage(Machine):
                             "dp": s.chance(0.5), "iu": s.chance(0.5), "sv": s.choice([None, "update", "update-and-boot"])})
             else:
                 soc = s.choice(["nrf54h20", "nrf54h20", "nrf9280"])
-                k = s.choice([None, None, "k_valid", "k_valid", "k_other", "k_dup", "k_default_moved"])
+                k = s.choice([None, None, "k_valid", "k_valid", "k_other", "k_dup", "k_dup_apart", "k_default_moved"])
                 # role each envelope would get under this soc / kconfig (plan-side copy of the model)
                 table = {(NORDIC, c): r for c, r in DEFAULT_CLASSES[soc]}
                 if k and len({tuple(p) for _, p in cur[k]}) == len(cur[k]):
@@ -329,10 +334,11 @@ class Storage(Machine):
     @staticmethod
     def _write_kconfig(host, kname, rows):
         lines = ["# generated", "CONFIG_SOMETHING=y", "SB_CONFIG_OTHER=0x10"]
-        for role, (v, c) in rows:
+        for n, (role, (v, c)) in enumerate(rows):
             tag = KCONFIG_ROLE_NAMES.get(role, role)
-            lines.append(f'SB_CONFIG_SUIT_MPI_{tag}_VENDOR_NAME="{v}"')
-            lines.append(f'SB_CONFIG_SUIT_MPI_{tag}_CLASS_NAME="{c}"')
+            pair = [f'SB_CONFIG_SUIT_MPI_{tag}_VENDOR_NAME="{v}"', f'SB_CONFIG_SUIT_MPI_{tag}_CLASS_NAME="{c}"']
+            lines += pair if (n + len(kname)) % 2 else pair[::-1]  # the two lines of a role come in either order
+            lines.append(f"SB_CONFIG_UNRELATED_{n}=y")
         host.write(f"{kname}.config", "\n".join(lines) + "\n")
 
     # -- mpi -----------------------------------------------------------------------------------------------------------
